@@ -52,3 +52,31 @@ Print Assumptions run_file_evaluates_forms_in_order.
 Theorem paths_example : cli_form demo_form empty_state = wal_eval demo_form [] empty_state.
 Proof. exact cli_agrees_demo. Qed.
 Print Assumptions paths_example.
+
+(** a form without macro calls (with respect to the macros visible in the state) is a fixed point of expand,
+    and expanding it leaves the state as it was: the second expand of the command-line pipeline is the identity
+    on it (proofs/ExpandProofs.v) *)
+From WalModel.proofs Require Import ExpandProofs.
+Theorem expand_fixed_point_on_macro_free_forms : forall lf f e p st e' st',
+  mfree st e = true -> expand lf f e p st = Ok e' st' -> e' = e /\ st' = st.
+Proof. exact expand_macro_free. Qed.
+Print Assumptions expand_fixed_point_on_macro_free_forms.
+
+Theorem macro_free_means : forall st e, mfree st e =
+  match e with
+  | VList w l => if is_quote_head l then true else w && head_not_macro st l && forallb (mfree st) l
+  | _ => true
+  end.
+Proof. intros st e. destruct e; reflexivity. Qed.
+Print Assumptions macro_free_means.
+
+Theorem command_line_agrees_on_macro_free_processed_forms : forall e st e1 st1 r e2 st2,
+  ast_truthy e = true ->
+  ex0 e (Some global_id) st = Ok e1 st1 -> optimize_modelled e1 = true ->
+  resolve (global_names st1) (optimize e1) = RsOk r ->
+  ast_truthy r = true ->
+  mfree st1 r = true -> ex0 r (Some global_id) st1 = Ok e2 st2 ->
+  optimize_modelled r = true -> optimize r = r -> val_depth r = val_depth (optimize e1) ->
+  cli_form e st = wal_eval e [] st.
+Proof. exact cli_form_agrees_macro_free. Qed.
+Print Assumptions command_line_agrees_on_macro_free_processed_forms.
